@@ -27,7 +27,7 @@ func (db *redisDB) NewIterator(prefix []byte, start []byte) (database.Iterator, 
 	allKeys := make([]string, 0, 100)
 	var err error
 
-	pattern := startString + "*"
+	pattern := globEscape(startString) + "*"
 
 	for {
 		var keys []string
@@ -69,6 +69,19 @@ func (db *redisDB) NewIterator(prefix []byte, start []byte) (database.Iterator, 
 		keys:   keys,
 		values: values,
 	}, nil
+}
+
+// globEscape escapes the Redis glob metacharacters so that s matches literally.
+func globEscape(s string) string {
+	var b strings.Builder
+	for i := 0; i < len(s); i++ {
+		switch s[i] {
+		case '*', '?', '[', ']', '\\', '^', '-':
+			b.WriteByte('\\')
+		}
+		b.WriteByte(s[i])
+	}
+	return b.String()
 }
 
 // Next advances the iterator to the next key/value pair.
